@@ -109,12 +109,12 @@ def dyn_cfg(name, dyn=True, amev=False, heights=3):
 # C16 at design level: a single-validator network against a clock (spec/MC_Dyn.tla)
 DYN_FAMILIES = [dyn_cfg('dyn-on'), dyn_cfg('dyn-off', dyn=False), dyn_cfg('dyn-on-amev', amev=True), dyn_cfg('dyn-on-long', heights=5)]
 
-def live_cfg(name, n=4, silent=(2,), cutsets=(), heal=0, amev=False, maxview=3, anytime=False, restart=()):
+def live_cfg(name, n=4, silent=(2,), cutsets=(), heal=0, amev=False, maxview=3, anytime=False, restart=(), crash=False):
     b = lambda v: 'TRUE' if v else 'FALSE'
     st = lambda xs: '{' + ', '.join(str(x) for x in xs) + '}'
-    txt = ('SPECIFICATION Spec\nCONSTANTS\n  N = %d\n  H = 2\n  Silent = %s\n  CutSets = {%s}\n  CutAnyTime = %s\n  HealAfter = %d\n  RestartSet = %s\n  AmevOn = %s\n  MaxView = %d\n  Emit = FALSE\n  CoverMod = 1\n'
+    txt = ('SPECIFICATION Spec\nCONSTANTS\n  N = %d\n  H = 2\n  Silent = %s\n  CutSets = {%s}\n  CutAnyTime = %s\n  HealAfter = %d\n  RestartSet = %s\n  RestartAnyTime = %s\n  AmevOn = %s\n  MaxView = %d\n  Emit = FALSE\n  CoverMod = 1\n'
            'CONSTRAINT Bound\nINVARIANTS Agreement ViewBound TimersArmed\nPROPERTY Termination\nCHECK_DEADLOCK FALSE\n'
-           % (n, st(silent), ', '.join(st(c) for c in cutsets), b(anytime), heal, st(restart), b(amev), maxview))
+           % (n, st(silent), ', '.join(st(c) for c in cutsets), b(anytime), heal, st(restart), b(crash), b(amev), maxview))
     return dict(name=name, module='MC_Live', cfg=txt)
 
 # C09 at design level: closed synchronous composition with silent / cut-off validators, liveness under fairness (spec/MC_Live.tla)
